@@ -16,7 +16,10 @@ from concurrent.futures import ThreadPoolExecutor
 import core
 from stages.common import *
 
-MON_C10 = {"OnlyVerifiedInOrder", "NothingFromLiars", "CheckExact", "RepairExact", "Converges"}
+MON_C10 = {"OnlyVerifiedInOrder", "CheckExact", "RepairExact", "Converges"}
+# NothingFromLiars ("nothing is stored from a stream after it delivered a lie") is the anchor mechanism, not the
+# statement: it can fire while every stored beacon verified and was in chain order, so it is reported as a note.
+MON_NOTE = {"NothingFromLiars"}
 
 UNCHAINED = ["pedersen-bls-unchained", "bls-unchained-on-g1", "bls-unchained-g1-rfc9380", "bls-bn254-unchained-on-g1"]
 
@@ -111,24 +114,24 @@ def run(ctx, monitors):
     # ---------------------------------------------------------------- 1. design level
     jobs = [
         {"cfg": "MC_SyncClient_run.cfg"},
-        {"cfg": "MC_SyncClient_race.cfg"},
         {"cfg": "MC_SyncClient_follow_chained.cfg"},
-        {"cfg": "MC_SyncClient_follow_unchained.cfg", "expect_ok": False},
-        {"cfg": "MC_SyncClient_repair.cfg", "expect_ok": False},
-        {"cfg": "MC_SyncClient_repair_clean.cfg"},
+        {"cfg": "MC_SyncClient_follow_unchained.cfg"},
+        {"cfg": "MC_SyncClient_repair.cfg"},
         {"cfg": "MC_SyncClient_run_live.cfg"},
     ]
     if not q:
         jobs += [
+            {"cfg": "MC_SyncClient_race.cfg"},
+            # the design as coded still breaks Converges / CheckExact here (F30, F31, F33)
             {"cfg": "MC_SyncClient_follow_live.cfg", "expect_ok": False},
             {"cfg": "MC_SyncClient_repair_live.cfg", "expect_ok": False},
             {"cfg": "MC_SyncClient_repair_abort.cfg", "expect_ok": False},
             {"cfg": "MC_SyncClient_run_big.cfg", "timeout": 1500, "workers": 8},
             {"cfg": "MC_SyncClient_race_big.cfg", "timeout": 1500, "workers": 8},
             {"cfg": "MC_SyncClient_follow_chained_big.cfg", "timeout": 900},
-            {"cfg": "MC_SyncClient_repair_clean_big.cfg", "timeout": 900},
+            {"cfg": "MC_SyncClient_follow_unchained_big.cfg", "timeout": 900},
+            {"cfg": "MC_SyncClient_repair_big.cfg", "timeout": 900},
             {"cfg": "MC_SyncClient_run_live_big.cfg", "timeout": 1500},
-            {"cfg": "MC_SyncClient_follow_live_retry.cfg", "expect_ok": False, "timeout": 900},
             {"cfg": "MC_SyncClient_follow_live_nostall.cfg", "timeout": 900},
             {"cfg": "MC_SyncClient_repair_live_nostall.cfg", "timeout": 900},
         ]
@@ -188,6 +191,10 @@ def run(ctx, monitors):
                 ctx.alarm(sig, "%s (%s): monitor %s failed at trace line %s of %s: %s [scenario %s, %s]" % (
                     test, a["mode"], a["mon"], a["line"], out, a["detail"], a["scenario"],
                     "chained" if a["chained"] else "unchained"))
+        lies = [a for a in alarms if a["mon"] in MON_NOTE]
+        if lies:
+            ctx.notes.append("%s: %d NothingFromLiars observation(s) (a stream was used after it delivered a lie; not a verdict), first: %s/%s in %s"
+                             % (test, len(lies), lies[0]["mode"], lies[0]["detail"], lies[0]["scenario"]))
         for a in alarms:
             if a["mon"] == "Crash":
                 ctx.notes.append("%s: the real code panicked in scenario %s (%s); no honest peer was ahead there, so C10 says "
